@@ -60,6 +60,7 @@ func LinearAttempt(ctx context.Context, rate time.Duration, count int) <-chan ti
 				return
 			case t = <-ticker.C:
 			}
+			verifPoint(verifAttemptAfterTick)
 			if ctx.Err() != nil {
 				// guarantee at most one tick after context cancel
 				return
